@@ -141,12 +141,25 @@ fn schema_expr(rec: &RecordDecl) -> String {
 
 pub fn emit_struct(out: &mut Out, rec: &RecordDecl, tags: &[String], schema_override: Option<String>) {
     let name = &rec.name;
-    let _ = writeln!(out.items, "#[derive(BinaryCodec)]");
-    out.items.push_str(&evolution_attr(rec));
-    if rec.fields.is_empty() {
-        let _ = writeln!(out.items, "pub struct {name};");
+    let via_macro = !rec.fields.is_empty() && rec.fields.iter().all(|f| f.transient_expr.is_none()) && refmodel::rng::fnv64_str(name) % 4 == 1;
+    if via_macro {
+        // declared through a macro_rules! helper: the field types reach the derive macro as `$t:ty` fragments
+        // (invisible groups in the token stream), as they do in code bases that stamp out their records with macros
+        let _ = writeln!(out.items, "macro_rules! decl_{name} {{ ($($f:ident : $t:ty),* $(,)?) => {{");
+        let _ = writeln!(out.items, "#[derive(BinaryCodec)]");
+        out.items.push_str(&evolution_attr(rec));
+        let _ = writeln!(out.items, "pub struct {name} {{ $(pub $f: $t),* }}");
+        let _ = writeln!(out.items, "}} }}");
+        let args: Vec<String> = rec.fields.iter().map(|f| format!("{}: {}", f.name, f.ty_src)).collect();
+        let _ = writeln!(out.items, "decl_{name}!({});", args.join(", "));
     } else {
-        let _ = writeln!(out.items, "pub struct {name} {{\n{}}}", field_lines(rec, true, "pub "));
+        let _ = writeln!(out.items, "#[derive(BinaryCodec)]");
+        out.items.push_str(&evolution_attr(rec));
+        if rec.fields.is_empty() {
+            let _ = writeln!(out.items, "pub struct {name};");
+        } else {
+            let _ = writeln!(out.items, "pub struct {name} {{\n{}}}", field_lines(rec, true, "pub "));
+        }
     }
     // Model
     let _ = writeln!(out.items, "impl Model for {name} {{");
@@ -534,8 +547,16 @@ pub fn history_version_decl(h: &History, k: usize, name: &str) -> RecordDecl {
         .map(|f| {
             let ty = placeholder_src(&f.ty);
             let (transient_expr, added_default_expr) = if f.transient {
-                // the transient default was drawn for the field's type at that time = its current type
-                (Some(placeholder_default_expr(&ty, f.default.as_ref().unwrap())), None)
+                // the transient default was drawn for the field's type at that time = its current type;
+                // a field that was added by FieldAdded keeps a well-typed FieldAdded default as well (a real declaration would)
+                let added = h.steps[..k].iter().find_map(|s| match s {
+                    HStep::Added { field, default, .. } if field.name == f.name => {
+                        let e = placeholder_default_expr(&ty_at_addition[&f.name], default);
+                        Some(if f.opt_by_name && !field.optional { format!("Some({e})") } else { e })
+                    }
+                    _ => None,
+                });
+                (Some(placeholder_default_expr(&ty, f.default.as_ref().unwrap())), added)
             } else {
                 (
                     None,
